@@ -7,6 +7,7 @@ mod c03;
 mod c04;
 mod c10;
 mod c14;
+mod c08;
 mod c17;
 mod c18;
 mod c20;
@@ -27,6 +28,8 @@ fn main() {
         "c04" => c04::main(&args),
         "c10" => c10::main(&args),
         "c14" => c14::main(&args),
+        "c08" => c08::main(&args, false),
+        "c09" => c08::main(&args, true),
         "c17" => c17::main(&args),
         "c02" => c02::main(&args),
         "c18" => c18::main(&args),
